@@ -2,5 +2,6 @@ import CloakModel.Props.C14
 import CloakModel.Props.E2EDg
 import CloakModel.Props.E2EDgWire
 import CloakModel.Props.C14Deadline
+import CloakModel.Props.C14Route
 
 /-! Umbrella module of property C14: everything its check builds and audits (`lean_module` in `checks_d/C14.py`). -/
